@@ -1,8 +1,9 @@
 """Per-property wiring: which contract modules (T1) and which bounded driver."""
 
 T1_MODULES = {
+    "C11": ["vt.contracts.syntactic"],
     "C08": ["vt.contracts.hyper_score"],
-    "C12": ["vt.contracts.misc_small"],
+    "C12": ["vt.contracts.misc_small", "vt.contracts.syntactic"],
     "C17": ["vt.contracts.syntactic", "vt.contracts.misc_small"],
     "C16": ["vt.contracts.syntactic"],
     "C15": ["vt.contracts.diskdict_effects"],
